@@ -179,4 +179,16 @@ Proof.
   { unfold usv at 2. rewrite (qmm_assoc RR m p p n U (@rdiag RR s) (qherm V)). reflexivity. }
   rewrite (frob2_meq RR m n _ _ F). eapply Rle_trans; [|exact E]. apply Req_le. symmetry. exact T.
 Qed.
+(* the first interlacing inequality s_0 <= sigma_0(A): the returned values are the singular values of a compression Q^H A of A by a matrix with
+   orthonormal columns, and a compression does not increase operator bounds *)
+From QVT Require Import SpectralNorm Compress.
+Theorem C12_largest_value_at_most_largest_singular_value m n k ra rb (Qm Ua Va Ub Vb : qmat RR) (sa sb : nat -> R) :
+  0 < ra -> 0 < rb -> meq k k (qmm m (qherm Qm) Qm) qmid ->
+  meq ra ra (qmm m (qherm Ua) Ua) qmid -> meq ra ra (qmm n (qherm Va) Va) qmid ->
+  meq rb rb (qmm k (qherm Ub) Ub) qmid -> meq rb rb (qmm n (qherm Vb) Vb) qmid ->
+  (forall j, j < ra -> (0 <= sa j <= sa 0%nat)%R) -> (forall j, j < rb -> (0 <= sb j)%R) ->
+  meq k n (qmm m (qherm Qm) (@usv RR ra Ua sa Va)) (@usv RR rb Ub sb Vb) ->
+  (sb 0%nat <= sa 0%nat)%R.
+Proof. exact (compressed_top_value_le m n k ra rb Qm Ua Va Ub Vb sa sb). Qed.
 Print Assumptions C12_error_at_least_eckart_young.
+Print Assumptions C12_largest_value_at_most_largest_singular_value.
